@@ -14,7 +14,9 @@ def run(tier, seed):
     n = 1800 if tier == "quick" else 50000
     jobs = [aclhist.make_history(rng, t, WEIGHTS, nops=rng.randint(2, 9)) for t in range(1, n + 1)]
     aclhist.fill_permutations(rng, jobs)
-    return aclhist.run_histories("C15", jobs, tier, mcs, "operation mix of group / ungroup / sort / permute / reverse / resequence / tcam_count")
+    tjobs, gen = aclhist.tlc_histories(tier, seed, len(jobs) + 1, want={"Group", "Ungroup", "Reverse"}, cap=1500 if tier == "quick" else 20000)
+    jobs += [j for j in tjobs if j["lines"]]
+    return aclhist.run_histories("C15", jobs, tier, mcs, "behaviours enumerated by TLC (MC_Acl_gen: every rule list of <= 3 items x 2 operations) replayed on a live object, plus a seeded operation mix of group / ungroup / sort / permute / reverse / resequence / tcam_count", gens=[gen])
 
 
 def replay(path):
